@@ -94,6 +94,10 @@ def classify(facts, im):
     return kind, tparam, fields, set(holding), wrapper
 
 
+def t_args(x, bb):
+    return x.term(bb).get("args")
+
+
 def r1r2(ctx, facts):
     n = 0
     for im in facts.impls_of(US):
@@ -134,6 +138,10 @@ def r1r2(ctx, facts):
                 inl = x.in_loop(bb)
                 tied = False
                 if x is b and io is not None and any(r[0] == "param" and r[1] == 2 for r in x.roots(io)):
+                    tied = True
+                if x is b and io is None and t_args(x, bb) and any(r[0] == "param" and r[1] == 2 for r in x.roots(x.arg_origin(bb, 0))):
+                    # the slot destroyed in place was looked up with an index taken from the mask itself (`for id in has.iter() { if let
+                    # Some(v) = self.0.get_mut(id as usize) { drop_in_place(v) } }`, benign C04-p1): only masked indices are ever visited
                     tied = True
 
                 def is_has_test(gbb, gt, x=x):
